@@ -9,6 +9,7 @@ import (
 	"reflect"
 	"regexp"
 	"sort"
+	"strconv"
 	"strings"
 
 	"golang.org/x/tools/go/ssa"
@@ -4066,11 +4067,50 @@ func hrNotFoundOnlyWhenAbsent(w *World, r *Report, rule string) {
 			return
 		}
 		n++
+		isFound := func(v ssa.Value) bool {
+			e, isE := peel(v).(*ssa.Extract)
+			if !isE || e.Index != 1 {
+				return false
+			}
+			_, isLk := e.Tuple.(*ssa.Lookup)
+			return isLk
+		}
+		// (a) the comparison is made only where the request has no entry, or
 		absent := false
 		for _, cd := range CondsOf(b.Block()) {
-			if e, isE := peel(cd.V).(*ssa.Extract); isE && e.Index == 1 && !cd.Pol {
-				if _, isLk := e.Tuple.(*ssa.Lookup); isLk {
-					absent = true
+			if isFound(cd.V) && !cd.Pol {
+				absent = true
+			}
+		}
+		// (b) its true edge goes on to test "no entry" before anything is returned
+		if iff := blockIf(b.Block()); !absent && iff != nil && iff.Cond == ssa.Value(b) {
+			t := b.Block().Succs[0]
+			if tif := blockIf(t); tif != nil && len(t.Instrs) == 1 {
+				retTrue := func(x *ssa.BasicBlock) bool {
+					if len(x.Instrs) == 0 {
+						return false
+					}
+					rt, isRet := x.Instrs[len(x.Instrs)-1].(*ssa.Return)
+					if !isRet || len(rt.Results) != 1 {
+						return false
+					}
+					v, isB := constBool(rt.Results[0])
+					return isB && v
+				}
+				c, pol := tif.Cond, true
+				if u, isNot := c.(*ssa.UnOp); isNot && u.Op == token.NOT {
+					c, pol = u.X, false
+				}
+				if isFound(c) {
+					onAbsent := t.Succs[1]
+					if !pol {
+						onAbsent = t.Succs[0]
+					}
+					other := t.Succs[0]
+					if onAbsent == other {
+						other = t.Succs[1]
+					}
+					absent = retTrue(onAbsent) && !retTrue(other)
 				}
 			}
 		}
@@ -4558,4 +4598,411 @@ func hrCounterParsedAsDecimal(w *World, r *Report, rule string) {
 		n += len(CallsIn(af, false, "strconv.Atoi"))
 	}
 	r.Check(ok && n >= 1, rule, "buildExtractCountFromCounterValuePath/decimal", f.Pos(), "the counter value is parsed in base 10 (base 0 reads \"010\" as 8 and \"0x10\" as 16)")
+}
+
+// ---------------------------------------------------------------------------
+// part 12: eleventh wave, second half
+
+// hrCfgIdentifiers (haproxy.cfg + spoe/lunar.conf): a transaction's id and its sequence id reach the engine as such.
+func hrCfgIdentifiers(w *World, r *Report, rule string) {
+	cfg, err := loadHAProxyCfg(w.Repo)
+	if err != nil {
+		r.Undec(rule, "haproxy.cfg", token.NoPos, "cannot read %s: %v", haproxyCfgPath, err)
+		return
+	}
+	if fe := cfg.section("frontend", "http-in"); fe == nil {
+		r.Undec(rule, "haproxy.cfg/frontend/http-in", token.NoPos, "frontend http-in not found")
+	} else {
+		// the sequence id defaults to the unique id, which HAProxy fixes at its first evaluation:
+		// the request id (the unique-id format) must be set before that
+		firstReq, firstSeq, uid := 1<<30, 1<<30, 1<<30
+		for _, d := range fe.find("http-request", "set-var(txn.lunar_request_id)") {
+			if d.Line < firstReq {
+				firstReq = d.Line
+			}
+		}
+		for _, d := range fe.find("http-request", "set-var(txn.lunar_sequence_id)") {
+			if d.Line < firstSeq {
+				firstSeq = d.Line
+			}
+		}
+		for _, d := range fe.find("unique-id-format") {
+			if d.Line < uid {
+				uid = d.Line
+			}
+		}
+		cfgCheck(r, firstReq < firstSeq && uid < firstSeq && firstSeq < 1<<30, rule, "haproxy.cfg/http-in/request-id-set-before-the-sequence-id-reads-unique-id", cfg, fe.Line, "set-var(txn.lunar_request_id) and unique-id-format come before the first set-var(txn.lunar_sequence_id) (lines %d, %d, %d)", firstReq, uid, firstSeq)
+	}
+	raw, err := os.ReadFile(filepath.Join(w.Repo, "proxy/rootfs/etc/haproxy/spoe/lunar.conf"))
+	if err != nil {
+		r.Undec(rule, "spoe/lunar.conf", token.NoPos, "cannot read: %v", err)
+		return
+	}
+	n := 0
+	msg := ""
+	for _, line := range strings.Split(string(raw), "\n") {
+		ws := cfgWords(line)
+		if len(ws) >= 2 && ws[0] == "spoe-message" {
+			msg = ws[1]
+		}
+		if len(ws) < 2 || ws[0] != "args" || !strings.HasPrefix(msg, "lunar-on-") {
+			continue
+		}
+		n++
+		args := map[string]string{}
+		for _, a := range ws[1:] {
+			if i := strings.Index(a, "="); i > 0 {
+				args[a[:i]] = a[i+1:]
+			}
+		}
+		ok := args["id"] == "unique-id" && args["sequence_id"] == "var(txn.lunar_sequence_id)" && args["url"] == "var(txn.url)" && args["method"] == "capture.req.method"
+		r.Check(ok, rule, "spoe/lunar.conf/"+msg+"/id-and-sequence-id", token.NoPos, "message %s passes id=unique-id and sequence_id=var(txn.lunar_sequence_id) (found id=%s sequence_id=%s)", msg, args["id"], args["sequence_id"])
+	}
+	r.Check(n == 4, rule, "spoe/lunar.conf/messages", token.NoPos, "four engine messages (%d found)", n)
+	// the Lua retry re-sends under the sequence id of the call
+	lua, err := os.ReadFile(filepath.Join(w.Repo, "proxy/rootfs/etc/haproxy/lua/lunar.lua"))
+	if err != nil {
+		r.Undec(rule, "lua/lunar.lua", token.NoPos, "cannot read: %v", err)
+		return
+	}
+	nl, okl := 0, true
+	for _, line := range strings.Split(string(lua), "\n") {
+		if i := strings.Index(line, "--"); i >= 0 {
+			line = line[:i]
+		}
+		if strings.Contains(line, `"x-lunar-sequence-id"`) && strings.Contains(line, "=") {
+			nl++
+			if !strings.Contains(line, "lunar_sequence_id") {
+				okl = false
+			}
+		}
+	}
+	r.Check(okl && nl >= 1, rule, "lua/lunar.lua/retry-carries-the-sequence-id", token.NoPos, "the re-sent request's x-lunar-sequence-id is txn.lunar_sequence_id (%d assignments)", nl)
+}
+
+// hrCfgGatewayErrorsMarked (haproxy.cfg): every answer the gateway produces by itself carries x-lunar-error.
+func hrCfgGatewayErrorsMarked(w *World, r *Report, rule string) {
+	cfg, err := loadHAProxyCfg(w.Repo)
+	if err != nil {
+		r.Undec(rule, "haproxy.cfg", token.NoPos, "cannot read %s: %v", haproxyCfgPath, err)
+		return
+	}
+	n := 0
+	var bad []string
+	for _, s := range cfg.Sections {
+		if s.Kind != "frontend" || (s.Name != "http-in" && s.Name != "http-async-in") {
+			continue
+		}
+		for _, d := range s.Dirs {
+			isDeny := len(d.Words) >= 2 && d.Words[0] == "http-request" && d.Words[1] == "deny"
+			isErr := len(d.Words) >= 1 && d.Words[0] == "http-error"
+			if !isDeny && !isErr {
+				continue
+			}
+			hasBody := false
+			for _, wd := range d.Words {
+				if wd == "lf-string" || wd == "string" {
+					hasBody = true
+				}
+			}
+			if !hasBody {
+				continue // a bare deny (allow/block list): the reason travels in txn.x_lunar_error
+			}
+			n++
+			marked := false
+			for i, wd := range d.Words {
+				if wd == "hdr" && i+1 < len(d.Words) && strings.EqualFold(d.Words[i+1], "x-lunar-error") {
+					marked = true
+				}
+			}
+			if !marked {
+				bad = append(bad, haproxyCfgPath+":"+strconv.Itoa(d.Line))
+			}
+		}
+	}
+	r.Check(len(bad) == 0 && n >= 6, rule, "haproxy.cfg/gateway-generated-answers-carry-x-lunar-error", token.NoPos, "each of the %d answers with a body that the gateway generates itself has `hdr x-lunar-error <n>` (not so: %v): the interceptor counts a gateway failure by that header", n, bad)
+}
+
+// hrUnmanageGlobalIsDelete: the engine un-manages "all" with the method the proxy routes.
+func hrUnmanageGlobalIsDelete(w *World, r *Report, rule string) {
+	f := w.Fn(pkgConfig, "unmanageGlobal")
+	if f == nil {
+		r.Undec(rule, "unmanageGlobal", token.NoPos, "function not found")
+		return
+	}
+	cs := CallsIn(f, false, "config.applyAllRequest")
+	ok := len(cs) == 1
+	m := ""
+	if ok {
+		m, _ = constString(cs[0].Common().Args[0])
+		ok = m == "DELETE"
+	}
+	r.Check(ok, rule, "unmanageGlobal/sends-DELETE", f.Pos(), "unmanageGlobal sends DELETE (found %q): the proxy routes /unmanage_global only for method_delete (hrCfgManagedProtocol)", m)
+}
+
+// hrParamNamePattern: whatever the URL tree takes for a {parameter} is rewritten in the registered expression.
+func hrParamNamePattern(w *World, r *Report, rule string) {
+	pat := ""
+	if ssaPkg := w.SSAPkg[pkgConfig]; ssaPkg != nil {
+		if ini := ssaPkg.Func("init"); ini != nil {
+			Instrs(ini, func(in ssa.Instruction) {
+				if st, ok := in.(*ssa.Store); ok && strings.HasSuffix(Path(st.Addr), "global:regexToFindPathParameters") {
+					if c, ok := peel(st.Val).(*ssa.Call); ok && isCallTo(c, "regexp.MustCompile") {
+						pat, _ = constString(c.Call.Args[0])
+					}
+				}
+			})
+		}
+	}
+	re, err := regexp.Compile(pat)
+	ok := err == nil && pat != ""
+	var miss []string
+	if ok {
+		for _, s := range []string{"/{id}", "/{team-id}", "/{tenant.name}", "/{a_b}"} {
+			if re.FindString("api.com"+s+"/x") != s {
+				ok = false
+				miss = append(miss, s)
+			}
+		}
+	}
+	r.Check(ok, rule, "regexToFindPathParameters/any-braced-segment", token.NoPos, "the registration recognises every `/{...}` segment as a parameter, like urltree.TryExtractPathParameter (pattern %q, not recognised: %v)", pat, miss)
+}
+
+// hrBodyLengthDecides: an apply request carries new policies when it has a body.
+func hrBodyLengthDecides(w *World, r *Report, rule string) {
+	f := w.Fn(pkgRouting, "HandleApplyPolicies")
+	if f == nil {
+		r.Undec(rule, "HandleApplyPolicies", token.NoPos, "function not found")
+		return
+	}
+	n := 0
+	for _, af := range Anons(f) {
+		for _, c := range CallsIn(af, false, "TxnPoliciesAccessor).UpdateRawData") {
+			n++
+			ok := false
+			for _, rel := range Rels(c.Block()) {
+				isLen := func(v ssa.Value) bool {
+					return strings.HasPrefix(Path(v), "builtin.len(") && strings.Contains(Path(v), "io.ReadAll(")
+				}
+				if isLen(rel.L) && (rel.Op == ">" && isIntConst(rel.R, 0) || rel.Op == "!=" && isIntConst(rel.R, 0) || rel.Op == ">=" && isIntConst(rel.R, 1)) {
+					ok = true
+				}
+				if isLen(rel.R) && (rel.Op == "<" && isIntConst(rel.L, 0) || rel.Op == "!=" && isIntConst(rel.L, 0) || rel.Op == "<=" && isIntConst(rel.L, 1)) {
+					ok = true
+				}
+			}
+			for _, cd := range CondsOf(c.Block()) {
+				if strings.Contains(Path(cd.V), "ContentLength") {
+					ok = false
+				}
+			}
+			r.Check(ok, rule, "HandleApplyPolicies/body-read-decides", posOf(c), "the pushed policies are applied when the body that was read is non-empty (not when a Content-Length was announced: a chunked request has none)")
+		}
+	}
+	r.Check(n == 1, rule, "HandleApplyPolicies/apply-site", f.Pos(), "one UpdateRawData site (%d)", n)
+}
+
+// hrEarlyResponseBodyAlwaysSet: a replayed response without a body still tells the proxy so.
+func hrEarlyResponseBodyAlwaysSet(w *World, r *Report, rule string) {
+	f := w.Fn(pkgActions, "EarlyResponseAction.ReqToSpoeActions")
+	if f == nil {
+		r.Undec(rule, "EarlyResponseAction.ReqToSpoeActions", token.NoPos, "function not found")
+		return
+	}
+	n, ok := 0, true
+	for _, c := range CallsIn(f, false, "action.Actions).SetVar") {
+		n++
+		if len(CondsOf(c.Block())) != 0 || !alwaysRuns(c) {
+			ok = false
+		}
+	}
+	r.Check(ok && n >= 3, rule, "EarlyResponseAction.ReqToSpoeActions/every-variable-always-set", f.Pos(), "all %d variables of an early response are set unconditionally (lua.mock_response sends the body variable as it is)", n)
+}
+
+// hrResponseClosedOnlyWhenPresent: the plugin's report to the engine survives an unreachable engine.
+func hrResponseClosedOnlyWhenPresent(w *World, r *Report, rule string) {
+	f := w.Fn(pkgDisc, "notifyErrorRecord")
+	if f == nil {
+		r.Undec(rule, "notifyErrorRecord", token.NoPos, "function not found")
+		return
+	}
+	n, ok := 0, true
+	Instrs(f, func(in ssa.Instruction) {
+		var recv ssa.Value
+		switch x := in.(type) {
+		case *ssa.Defer:
+			if strings.HasSuffix(calleeID(x), ".Close") {
+				recv = x.Call.Value
+				if recv == nil && len(x.Call.Args) > 0 {
+					recv = x.Call.Args[0]
+				}
+			}
+		}
+		if recv == nil || !strings.Contains(Path(recv), ".Body") {
+			return
+		}
+		n++
+		guarded := false
+		for _, rel := range Rels(in.Block()) {
+			if rel.Op == "==" && isNilConst(rel.R) && isErrorType(rel.L.Type()) && strings.Contains(Path(rel.L), ").Do(") {
+				guarded = true
+			}
+		}
+		if !guarded {
+			ok = false
+		}
+	})
+	r.Check(ok && n >= 1, rule, "notifyErrorRecord/body-closed-only-after-a-successful-call", f.Pos(), "resp.Body.Close is deferred only where client.Do returned no error (with the engine unreachable resp is nil)")
+}
+
+// hrFlushDoesNotRedeliver: a chunk discovery has already ingested is not handed back for redelivery.
+func hrFlushDoesNotRedeliver(w *World, r *Report, rule string) {
+	f := w.Fn("lunar/aggregation-plugin", "FLBPluginFlushCtx")
+	if f == nil {
+		r.Undec(rule, "FLBPluginFlushCtx", token.NoPos, "function not found")
+		return
+	}
+	runs := CallsIn(f, false, "discovery.Run")
+	ok := len(runs) == 1
+	n := 0
+	if ok {
+		for _, alt := range ReturnAlts(f, 0) {
+			if !domInstr(runs[0], alt.Ret) {
+				continue
+			}
+			n++
+			if k, isK := constInt(alt.Val); !isK || k == 2 { // output.FLB_RETRY
+				ok = false
+			}
+		}
+	}
+	r.Check(ok && n >= 2, rule, "FLBPluginFlushCtx/no-retry-after-discovery-ran", f.Pos(), "after discovery.Run no return asks fluent-bit to deliver the chunk again (FLB_RETRY would count it twice) (%d returns)", n)
+}
+
+// hrFreshMapPerIteration: what a loop stores under each key is made in that iteration.
+func hrFreshMapPerIteration(w *World, r *Report, rule string, pkg, fn string) {
+	f := w.Fn(pkg, fn)
+	if f == nil {
+		r.Undec(rule, fn, token.NoPos, "function not found")
+		return
+	}
+	n, ok := 0, true
+	hs := loopHeadersOf(f)
+	Instrs(f, func(in ssa.Instruction) {
+		mu, isMU := in.(*ssa.MapUpdate)
+		if !isMU {
+			return
+		}
+		mk, isMk := peel(mu.Value).(*ssa.MakeMap)
+		if !isMk {
+			return
+		}
+		for _, h := range hs {
+			if loopHas(h, mu.Block()) {
+				n++
+				if !loopHas(h, mk.Block()) {
+					ok = false
+				}
+			}
+		}
+	})
+	r.Check(ok && n >= 1, rule, fn+"/inner-map-made-per-key", f.Pos(), "the map stored under each key is made inside the loop that stores it (one shared map would give every consumer the union of all)")
+}
+
+// hrObfuscationLookups: small lookups of the header/path obfuscation.
+func hrObfuscationLookups(w *World, r *Report, rule string) {
+	if f := w.Fn(pkgConfig, "shouldObfuscate"); f == nil {
+		r.Undec(rule, "shouldObfuscate", token.NoPos, "function not found")
+	} else {
+		lin := len(CallsIn(f, false, "slices.Contains", "slices.Index", "slices.ContainsFunc")) + len(loopHeadersOf(f))
+		bin := len(CallsIn(f, false, "slices.BinarySearch", "sort.SearchStrings", "sort.Search"))
+		r.Check(lin >= 1 && bin == 0, rule, "shouldObfuscate/exclusions-searched-as-an-unsorted-list", f.Pos(), "the exclusion list is scanned (it comes from the policies file in the user's order), not binary-searched")
+	}
+	if f := w.Fn("lunar/engine/streams/processors/har-collector", "apiStreamObfuscator.ObfuscateURLPath"); f == nil {
+		r.Undec(rule, "ObfuscateURLPath", token.NoPos, "function not found")
+	} else {
+		ok, n := true, 0
+		for _, c := range CallsIn(f, false, "strings.Split") {
+			n++
+			p := Path(c.Common().Args[0])
+			if !strings.HasSuffix(p, "parsedURL.Path") {
+				ok = false
+			}
+		}
+		r.Check(ok && n >= 1, rule, "ObfuscateURLPath/segments-of-the-decoded-path", f.Pos(), "the path is split on parsedURL.Path (decoded), the form the exclusions are written in")
+	}
+	if f := w.Fn("lunar/engine/streams/processors/har-collector", "apiStreamObfuscator.isPathSegmentExcluded"); f != nil {
+		n := len(CallsIn(f, true, "fmt.Sprint", "fmt.Sprintf"))
+		r.Check(n == 0, rule, "isPathSegmentExcluded/compares-strings-only", f.Pos(), "a path segment is excluded when an excluded value IS that string (no formatting of numbers or booleans into strings: %d Sprint calls)", n)
+	}
+}
+
+// hrExpireRearmed: adding a key that is already watched moves its deadline.
+func hrExpireRearmed(w *World, r *Report, rule string) {
+	f := w.Fn(pkgLctx, "ExpireWatcher.AddKey")
+	if f == nil {
+		r.Undec(rule, "ExpireWatcher.AddKey", token.NoPos, "function not found")
+		return
+	}
+	n, ok := 0, true
+	Instrs(f, func(in ssa.Instruction) {
+		if mu, isMU := in.(*ssa.MapUpdate); isMU && strings.HasSuffix(Path(mu.Map), ".keysToRemove") {
+			n++
+			if len(CondsOf(mu.Block())) != 0 || !alwaysRuns(mu) {
+				ok = false
+			}
+		}
+	})
+	r.Check(ok && n == 1, rule, "ExpireWatcher.AddKey/deadline-always-rearmed", f.Pos(), "keysToRemove[key] is set on every call (a retry that stores its request again under the sequence key must not lose it to the first transaction's deadline)")
+}
+
+// hrPutErrorsReturned: a registration the proxy refused fails the update.
+func hrPutErrorsReturned(w *World, r *Report, rule string) {
+	f := w.Fn(pkgConfig, "updateHAProxyEndpoints")
+	if f == nil {
+		r.Undec(rule, "updateHAProxyEndpoints", token.NoPos, "function not found")
+		return
+	}
+	n, ok := 0, true
+	for _, c := range CallsIn(f, false, "config.operateEndpoint") {
+		n++
+		if !errReturned(f, c) {
+			ok = false
+		}
+	}
+	r.Check(ok && n >= 1, rule, "updateHAProxyEndpoints/registration-errors-returned", f.Pos(), "the error of every PUT to the proxy is returned (%d calls): the engine must not switch to policies the proxy does not forward", n)
+}
+
+// hrRestoreBeforeFallbackReload: after a failed apply the files are restored before the engine reloads from them.
+func hrRestoreBeforeFallbackReload(w *World, r *Report, rule string) {
+	f := w.Fn(pkgRouting, "HandlingDataManager.handleApplyFlows")
+	if f == nil {
+		r.Undec(rule, "handleApplyFlows", token.NoPos, "function not found")
+		return
+	}
+	n := 0
+	for _, af := range Anons(f) {
+		reloads := CallsIn(af, false, "HandlingDataManager).reloadFlows")
+		for _, c := range reloads {
+			// a fallback reload: it runs where an earlier reload has failed
+			fallback := false
+			for _, rel := range Rels(c.Block()) {
+				if rel.Op == "!=" && isNilConst(rel.R) && strings.Contains(Path(rel.L), "reloadFlows(") {
+					fallback = true
+				}
+			}
+			if !fallback {
+				continue
+			}
+			n++
+			restored := false
+			Instrs(af, func(in ssa.Instruction) {
+				if call, isCall := in.(*ssa.Call); isCall && isCallTo(call, "FileSystemOperation).Restore") && domInstr(call, c) {
+					restored = true
+				}
+			})
+			r.Check(restored, rule, "handleApplyFlows/restore-before-the-fallback-reload", posOf(c), "the reload that follows a failed apply is preceded by an executed (not deferred) Restore(): it must load the previous files, not the rejected ones")
+		}
+	}
+	r.Check(n >= 1, rule, "handleApplyFlows/fallback-reloads", f.Pos(), "%d fallback reloads inspected", n)
 }
